@@ -27,6 +27,7 @@ import (
 	"fmt"
 	"io"
 	"math"
+	mrand "math/rand"
 	"net/http"
 	"net/http/httptest"
 	"os"
@@ -513,8 +514,10 @@ var c04FpWire = map[string]string{"fa": "c04-fingerprint-A", "fb": "c04-fingerpr
 
 func newC04Keys(dir string) (*c04Keys, error) {
 	k := &c04Keys{priv: map[string]*rsa.PrivateKey{}, files: map[string]string{}}
+	// the two configured keys have different sizes: the payload of one RSA block (k-11 bytes) and the
+	// block length k of the chunked scheme differ between them
 	for _, name := range []string{"KA", "KB"} {
-		key, err := rsa.GenerateKey(rand.Reader, 2048)
+		key, err := rsa.GenerateKey(rand.Reader, map[string]int{"KA": 2048, "KB": 1024}[name])
 		if err != nil {
 			return nil, err
 		}
@@ -599,13 +602,80 @@ func c04Sign(key []byte, ts, method, path, query, body string) string {
 	return base64.StdEncoding.EncodeToString(m.Sum(nil))
 }
 
-func c04Secret(pub *rsa.PublicKey, key []byte, ts string) (string, error) {
-	plain := strings.Join([]string{"version=v1", "type=0", "key=" + base64.StdEncoding.EncodeToString(key), "time=" + ts}, "; ")
-	enc, err := rsa.EncryptPKCS1v15(rand.Reader, pub, []byte(plain))
-	if err != nil {
-		return "", err
+// c04HmacKey is the HMAC key an honest client uses for a secret of length class slen
+// (spec/AuthSig.tla) under an RSA key with modulus length k and timestamp ts: 16 bytes for "short";
+// otherwise as long as fits, so that the plaintext of c04Plain reaches the wanted length together
+// with a filler attribute of 1-4 characters.
+func c04HmacKey(slen string, k int, ts string, salt int64) ([]byte, int, error) {
+	if slen == "short" {
+		return []byte("c04-hmac-key-16b"), 0, nil
 	}
-	return base64.StdEncoding.EncodeToString(enc), nil
+	B := k - 11 // payload of one PKCS#1 v1.5 block
+	want, ok := map[string]int{"B-1": B - 1, "B": B, "B+1": B + 1, "2B": 2 * B, "2B+1": 2*B + 1, "long": 3*B + 7}[slen]
+	if !ok {
+		return nil, 0, fmt.Errorf("unknown secret length class %q", slen)
+	}
+	fixed := len(c04Plain(nil, ts, "x")) // with a filler of one character and an empty key
+	avail := want - fixed
+	if avail < 24 {
+		return nil, 0, fmt.Errorf("secret length %s = %d bytes leaves no room for a key", slen, want)
+	}
+	key := make([]byte, avail/4*3) // a multiple of 3: base64 without padding characters
+	rnd := mrand.New(mrand.NewSource(salt))
+	for i := range key {
+		key[i] = byte(rnd.Intn(256))
+	}
+	return key, want, nil
+}
+
+// c04Plain is the plaintext of the secret attribute: "type", "key", "time" as the protocol says,
+// preceded by an attribute the server does not know ("version" as real clients send it, or a
+// filler) - the time is always the last thing of the last block.
+func c04Plain(key []byte, ts string, filler string) string {
+	first := "version=v1"
+	if filler != "" {
+		first = "nonce=" + filler
+	}
+	return strings.Join([]string{first, "type=0", "key=" + base64.StdEncoding.EncodeToString(key), "time=" + ts}, "; ")
+}
+
+// c04Secret encrypts the secret the way the scheme defines it (lib/codec/rsa.go crypt, with the
+// standard library only): PKCS#1 v1.5, the plaintext cut into pieces of k-11 bytes, each encrypted
+// to one block of k bytes, the blocks concatenated.  want (0 = as it comes) is the exact plaintext
+// length to reach with the filler attribute.  corrupt alters one byte of the last block.
+func c04Secret(pub *rsa.PublicKey, key []byte, ts string, want int, corrupt bool) (secret string, blocks int, err error) {
+	plain := c04Plain(key, ts, "")
+	if want > 0 {
+		n := want - len(c04Plain(key, ts, "x")) + 1
+		if n < 1 {
+			return "", 0, fmt.Errorf("secret plaintext cannot be made %d bytes long", want)
+		}
+		plain = c04Plain(key, ts, strings.Repeat("n", n))
+		if len(plain) != want {
+			return "", 0, fmt.Errorf("secret plaintext is %d bytes, wanted %d", len(plain), want)
+		}
+	}
+	k := pub.Size()
+	var enc []byte
+	for rest := []byte(plain); len(rest) > 0; blocks++ {
+		n := len(rest)
+		if n > k-11 {
+			n = k - 11
+		}
+		blk, err := rsa.EncryptPKCS1v15(rand.Reader, pub, rest[:n])
+		if err != nil {
+			return "", 0, err
+		}
+		if len(blk) != k {
+			return "", 0, fmt.Errorf("RSA block of %d bytes under a %d-byte modulus", len(blk), k)
+		}
+		enc = append(enc, blk...)
+		rest = rest[n:]
+	}
+	if corrupt {
+		enc[len(enc)-k/2] ^= 0x5a
+	}
+	return base64.StdEncoding.EncodeToString(enc), blocks, nil
 }
 
 func runSigCase(c kit.Case, keys *c04Keys, servers map[string]*c04SigServer) (v kit.Verdict) {
@@ -634,8 +704,12 @@ func runSigCase(c kit.Case, keys *c04Keys, servers map[string]*c04SigServer) (v 
 		tamList = append(tamList, kit.Str(t))
 	}
 	sort.Strings(tamList)
-	hmacKey := []byte("c04-hmac-key-16b")
-	var code, ran int
+	slen := kit.Str(rq["slen"])
+	if slen == "" {
+		slen = "short" // cases recorded before the field existed
+	}
+	var code, ran, blocks int
+	encFor := "KA"
 	for attempt := 0; ; attempt++ {
 		if attempt == 8 {
 			return c04Infra(c, "the clock's second changed during 8 consecutive attempts")
@@ -693,11 +767,10 @@ func runSigCase(c kit.Case, keys *c04Keys, servers map[string]*c04SigServer) (v 
 		if kit.Bool(rq["body"]) {
 			body = `{"n":1,"s":"c04"}`
 		}
-		sig := c04Sign(hmacKey, ts, method, path, query, body)
-
 		// the fingerprint the header names and the RSA key the honest secret is encrypted for
 		// (spec/AuthSig.tla, FpName and EncKey)
-		fp, encFor := c04FpWire["fa"], "KA"
+		fp := c04FpWire["fa"]
+		encFor = "KA"
 		switch kit.Str(rq["fp"]) {
 		case "known":
 		case "known2":
@@ -721,17 +794,23 @@ func runSigCase(c kit.Case, keys *c04Keys, servers map[string]*c04SigServer) (v 
 				tsInSecret = strconv.FormatInt(n-1, 10)
 			}
 		}
+		if kit.Str(rq["secret"]) == "crossed" {
+			encFor = map[string]string{"KA": "KB", "KB": "KA"}[encFor]
+		}
+		pub := &keys.priv[encFor].PublicKey
+		// the honest client's HMAC key: its length (and a filler attribute) makes the secret's plaintext
+		// as long as the case says, relative to the block payload of the key it is encrypted for
+		hmacKey, want, err := c04HmacKey(slen, pub.Size(), tsInSecret, int64(kit.EnvInt("VERIF_SEED", 1))*1000003+int64(c.Index))
+		if err != nil {
+			return c04Infra(c, err.Error())
+		}
+		sig := c04Sign(hmacKey, ts, method, path, query, body)
 		var secret string
-		var err error
 		switch kit.Str(rq["secret"]) {
-		case "ok":
-			secret, err = c04Secret(&keys.priv[encFor].PublicKey, hmacKey, tsInSecret)
-		case "crossed":
-			other := "KB"
-			if encFor == "KB" {
-				other = "KA"
-			}
-			secret, err = c04Secret(&keys.priv[other].PublicKey, hmacKey, tsInSecret)
+		case "ok", "crossed":
+			secret, blocks, err = c04Secret(pub, hmacKey, tsInSecret, want, false)
+		case "corrupt":
+			secret, blocks, err = c04Secret(pub, hmacKey, tsInSecret, want, true)
 		case "garbled":
 			secret = "@@not-base64@@"
 		default:
@@ -739,6 +818,9 @@ func runSigCase(c kit.Case, keys *c04Keys, servers map[string]*c04SigServer) (v 
 		}
 		if err != nil {
 			return c04Infra(c, err.Error())
+		}
+		if wantBlocks := kit.Num(st["blocks"]); wantBlocks != 0 && blocks != 0 && blocks != wantBlocks {
+			return c04Infra(c, fmt.Sprintf("the secret of length class %s has %d RSA blocks, the specification says %d", slen, blocks, wantBlocks))
 		}
 		if tam["method"] {
 			method = map[string]string{"GET": "DELETE", "DELETE": "GET", "POST": "PUT", "PUT": "POST"}[method]
@@ -832,6 +914,9 @@ func runSigCase(c kit.Case, keys *c04Keys, servers map[string]*c04SigServer) (v 
 			what += ":time" + kit.Str(rq["ts"])
 		}
 	}
+	if what != "" && slen != "short" {
+		what += fmt.Sprintf(":secret-length-%s", slen)
+	}
 	if what != "" && kit.Str(rq["via"]) != "sized" {
 		what += ":body-" + kit.Str(rq["via"])
 	}
@@ -844,11 +929,21 @@ func runSigCase(c kit.Case, keys *c04Keys, servers map[string]*c04SigServer) (v 
 	if what != "" {
 		v.OK = false
 		v.Key = "C04:sig:" + what
-		v.Msg = fmt.Sprintf("strict signature route of group %s (route groups and their keys: %s), request %s: handler ran %d times, status %d; specification: %s",
-			group, kit.Canon(conf), kit.Canon(rq), ran, code, expect)
+		v.Msg = fmt.Sprintf("strict signature route of group %s (route groups and their keys: %s), request %s (secret: %d RSA block(s) for the %d-bit key %s): handler ran %d times, status %d; specification: %s",
+			group, kit.Canon(conf), kit.Canon(rq), blocks, keys.priv[encFor].N.BitLen(), encFor, ran, code, expect)
 	} else {
 		if passed {
 			c04Count("sig.pass."+layout+"."+group, 1)
+			c04Count("sig.pass.len-"+slen+"."+encFor, 1)
+			c04Count(fmt.Sprintf("sig.pass.blocks-%d", blocks), 1)
+		}
+		if denied && len(tamList) == 1 && kit.Str(rq["ts"]) == "now" && kit.Str(rq["secret"]) == "ok" &&
+			(kit.Str(rq["fp"]) == "known" || kit.Str(rq["fp"]) == "known2") && !kit.Bool(st["foreign"]) {
+			c04Count("sig.tampered-denied.len-"+slen, 1)
+		}
+		if denied && kit.Str(rq["secret"]) == "corrupt" && kit.Str(rq["ts"]) == "now" &&
+			(kit.Str(rq["fp"]) == "known" || kit.Str(rq["fp"]) == "known2") && !kit.Bool(st["foreign"]) {
+			c04Count("sig.corrupt-block-denied", 1)
 		}
 		if kit.Bool(st["foreign"]) && kit.Str(rq["ts"]) == "now" && len(tamList) == 0 {
 			c04Count("sig.foreign-key-denied."+layout+"."+group, 1)
